@@ -39,7 +39,10 @@ def specs(rng):
         cs = rng.random() < 0.5
         base = {'case_sensitive': cs}
         extra = []
-        if rng.random() < 0.3:
+        if rng.random() < 0.15:
+            # every submission is acceptable: what it earns is the credit the author attached (best alternative)
+            base['accept_any'] = True
+        elif rng.random() < 0.3:
             # ill-formed submissions are silently graded wrong (no explanation): wrong_msg applies to them as to any wrong answer
             base.update(validation_pattern='[a-zA-Z ]*', explain_validation=None)
             extra = ['c4t', 'dog!', '42']
@@ -68,7 +71,7 @@ def specs(rng):
             pool = pool + ['[1,2,3]', '[[1,2],[3,4]]', '7']
             inputs = inputs + ['[1,2,3]', '[[1,2],[3,4]]', '7', '[1,2,4]']
         return ('MatrixGrader', base, pool, inputs)
-    return ('SingleListGrader', {'ordered': rng.random() < 0.5, 'partial_credit': rng.random() < 0.6},
+    return ('SingleListGrader', {'ordered': rng.random() < 0.5, 'partial_credit': rng.random() < 0.6, 'length_error': rng.random() < 0.3},
             [['a', 'b'], ['b', 'a'], ['a', 'c'], ['c', 'd'], ['a', 'a']], ['a,b', 'b,a', 'a,c', 'c,d', 'a', 'x,y', 'a,b,c'])
 
 
@@ -138,7 +141,7 @@ def run_item(ctx):
         out = lib.call(ctx, fulls[0][1], None, nowhere)
         ctx.ev()
         ctx.count('known_wrong_checks')
-        if out.returned and out.value['grade_decimal'] != 0:
+        if out.returned and out.value['grade_decimal'] != 0 and not base.get('accept_any'):
             ctx.violation('C08:%s:input_matching_nothing_earns_credit' % cls_name, 'input %r earned %r' % (nowhere, out.value),
                           {'grader': cls_name, 'config': base, 'alternatives': alts, 'input': nowhere})
         for inp in rng.sample(inputs, min(len(inputs), ctx.pick(3, 6))):
@@ -165,7 +168,7 @@ def run_item(ctx):
                     ctx.violation('C08:%s:single_alternative_depends_on_credit%s' % (cls_name, ':zero_credit' if a['grade_decimal'] == 0 else ''),
                                   'worth %r: %r; worth 1: %r' % (a['grade_decimal'], o.value, o1.value),
                                   {'grader': cls_name, 'config': base, 'alternative': a, 'input': inp})
-            if cls_name in ('StringGrader', 'NumericalGrader', 'FormulaGrader'):
+            if cls_name in ('StringGrader', 'NumericalGrader', 'FormulaGrader', 'SingleListGrader'):
                 # absolute: a message is one the author wrote for one of these alternatives (or empty)
                 legal = set(a['msg'] for a in alts) | {''}
                 for o in souts:
